@@ -489,7 +489,7 @@ def md8(F, R):
             d = dict(zip(s["rv"]["fields"], [fn.term_of_operand(o, b) for o in s["rv"]["ops"]]))
             ok = d["current_offset"][:2] == ("c", 0) and d["dirty"][:2] == ("c", 0) and tstr(d["current_cluster"]).startswith("Tuple{0, ") and "cluster" in tstr(d["current_cluster"])
             R.require(ok, fn, "fileinfo-init", "a new FileInfo must start at offset 0, clean, cursor (0, entry.cluster); got offset=%s dirty=%s cursor=%s" % (tstr(d["current_offset"]), tstr(d["dirty"]), tstr(d["current_cluster"])), fn.loc(b, i))
-    R.require(n >= 4, fn, "fileinfo-literals", "expected the four FileInfo literals (create, read-only, append, truncate), found %d" % n, fn.loc(0))
+    R.require(n >= 1, fn, "fileinfo-literals", "open_file_in_dir must build its FileInfo records as literals (found %d)" % n, fn.loc(0))
 
 
 @rule("IO1", ["C01", "C02"], floor=6,
